@@ -160,16 +160,48 @@ class Wire:
 
 
 class SendEnd:
-    def __init__(self, wire):
+    """the sender's socket.  mode "all": send() takes everything; "rand": it takes a random part of what it is offered
+    and now and then raises socket.timeout instead (the caller has to offer the same bytes again); "sched": the next
+    packet is taken as plan says - plan = list of ("take", cells) / ("timeout",) with the packet cut in `cells` pieces"""
+
+    def __init__(self, wire, rnd=None):
         self.wire = wire
+        self.mode = "all"
+        self.rnd = rnd or random.Random(0)
+        self.plan = collections.deque()
+        self.cell = None          # bytes per cell of the packet being written (sched)
+        self.calls = 0
+        self.partial = 0
+        self.timeouts = 0
 
     def settimeout(self, t):
         pass
 
+    def next_packet(self, plan, cells):
+        self.plan, self.cells, self.cell = collections.deque(plan), cells, None
+
     def send(self, data):
-        self.wire.data += data
+        self.calls += 1
+        k = len(data)
+        if self.mode == "rand":
+            if self.rnd.random() < 0.25:
+                self.timeouts += 1
+                raise socket.timeout()
+            if k > 1 and self.rnd.random() < 0.6:
+                k = self.rnd.randint(1, k - 1)
+        elif self.mode == "sched" and self.plan:
+            if self.cell is None:
+                self.cell = max(1, -(-len(data) // self.cells))
+            step = self.plan.popleft()
+            if step[0] == "timeout":
+                self.timeouts += 1
+                raise socket.timeout()
+            k = len(data) if not any(x[0] == "take" for x in self.plan) else max(1, min(len(data) - 1, step[1] * self.cell))
+        if k < len(data):
+            self.partial += 1
+        self.wire.data += data[:k]
         self.wire.bounds.append(len(self.wire.data))
-        return len(data)
+        return k
 
     def recv(self, n):
         raise Starved()
@@ -234,7 +266,8 @@ def seq_in(packetizer):
 
 class Sender:
     def __init__(self, wire, suite, keys, strict=False, server_mode=False, hashf=hashlib.sha256, **kw):
-        self.t = harness_transport(SendEnd(wire), suite, server_mode, strict, hashf, **kw)
+        self.sock = SendEnd(wire, random.Random(wire.rnd.getrandbits(32)))
+        self.t = harness_transport(self.sock, suite, server_mode, strict, hashf, **kw)
         self.keys = keys             # shared list of (K, H); session id = first H
         self.hashf = hashf
         self.epoch = 0               # number of _activate_outbound calls
